@@ -1036,6 +1036,8 @@ class Engine:
                     if o[0] == "adt" and o[2] in ("Some", "None", "Ok", "Err"):
                         st.assume[key] = vint(0 if o[2] in ("Some", "Ok") else 1)
                     a2 = st.assume.get(("app", "discr", (o,)))
+                    if a2 is not None and a2[0] == "notin" and len(a2[1]) == 1 and a2[1][0] in (0, 1):
+                        a2 = vint(1 - a2[1][0])      # Option / Result have two variants: "not Some" is None
                     if a2 is not None and a2[0] == "int" and a2[1] == a2[2] and a2[1] in (0, 1):
                         st.assume[key] = vint(1 - a2[1]) if is_opt else vint(a2[1])
         if key in st.assume:
